@@ -16,9 +16,6 @@ ASSUMPTIONS = [
     "as_bytes() and len()",
     "UtpHeader::serialize is modelled by the prefix buffer[..returned offset]; the harness checks with a "
     "poisoned buffer that nothing beyond it is written",
-    "the round-trip theorem is proved for headers with at most one extension; for SACK + close reason together "
-    "it is refuted (theorems c11_roundtrip_refuted_both_ext, c11_both_ext_malformed) and reported as known "
-    "finding W1: the real serialize reproduces the malformed bytes of the model",
     "the clause 'every datagram the library emits ...' is a connection-level statement and is not part of this check",
 ]
 RULE = ("wire_de/wire_msg: structural enumeration (all 256 type/version bytes x short chains; valid first bytes x "
@@ -28,11 +25,6 @@ RULE = ("wire_de/wire_msg: structural enumeration (all 256 type/version bytes x 
         "lengths around 20/26/30/36. non-trivial = the datagram is >= 20 bytes with version nibble 1 and type <= 4 "
         "and has a non-zero first-extension byte (wire_de/wire_msg), or an extension is present and buflen >= 20 "
         "(wire_ser); distinct = distinct case line")
-
-KNOWN_ID = "W1"
-KNOWN_LINE = ("KNOWN-FINDING: property=C11 id=W1 UtpHeader::serialize with selective_ack and close_reason both "
-              "present writes the second extension id over the first extension's length byte "
-              "(src/raw.rs add_ext!: next_ext_pos = offset + 1); the output does not parse back")
 
 IDS = [1, 2, 3, 255]
 LENS_SMALL = [0, 1, 3, 4, 5, 8, 9]
@@ -222,33 +214,25 @@ def close_spec(rng):
     return "-" if rng.chance(1, 2) else str(rng.choice([0, 1, 15, 255, 256, 288, 65535, rng.below(65536)]))
 
 
-def is_known_class(line):
-    """wire_ser with both extensions present and a buffer that holds both (36 bytes)"""
-    t = line.split()
-    return len(t) == 11 and t[0] == "wire_ser" and t[8] != "-" and t[9] != "-" and int(t[10]) >= 36
-
-
 def gen_ser(rng, tier):
     lines = []
     n = 12000 if tier == "quick" else 200000
     for _ in range(n):
         bl = rng.choice(BUFLENS) if rng.chance(3, 4) else rng.range(0, 64)
         lines.append(ser_line(rng, sack_spec(rng), close_spec(rng), bl))
+    # SACK and close reason together in a buffer that holds both: the second extension is chained
+    # through the first one's next-extension byte (the path repaired by /repo 2f571a9)
+    for _ in range(n // 6):
+        s = sack_spec(rng)
+        while s == "-":
+            s = sack_spec(rng)
+        lines.append(ser_line(rng, s, str(rng.choice([0, 15, 288, 65535, rng.below(65536)])),
+                              rng.choice([36, 36, 37, 64, 1024, 1500])))
     return lines
 
 
 def gen(rng, tier):
     return gen_parse(rng.fork("parse"), tier) + gen_ser(rng.fork("ser"), tier)
-
-
-def gen_known(rng, tier):
-    lines = []
-    for _ in range(200 if tier == "quick" else 5000):
-        s = sack_spec(rng)
-        while s == "-":
-            s = sack_spec(rng)
-        lines.append(ser_line(rng, s, str(rng.below(65536)), rng.choice([36, 37, 64, 1024, 1500])))
-    return lines
 
 
 # ----------------------------------------------------------------------------- independent oracle
@@ -341,17 +325,7 @@ def _pred(line, out):
 
 
 def pred(line, out):
-    # the known-finding class is evaluated by the component wire_both (same predicate, same oracle)
-    if is_known_class(line):
-        return None
     return _pred(line, out)
-
-
-def pred_known(line, out):
-    # the Coq predicate alone decides here (the python oracle rejects these outputs as well)
-    if not is_known_class(line) or out.startswith("HARNESS-ERROR"):
-        return None
-    return "wire_pred " + line + " | " + out
 
 
 def nontrivial(line, out):
@@ -371,8 +345,9 @@ def classify(line, out):
             return "wire_ser:err"
         n = len(uncsv(out.split()[0]))
         full = 20 + (10 if t[8] != "-" else 0) + (6 if t[9] != "-" else 0)
-        return "wire_ser:%s" % ("no-ext" if full == 20 else "all-ext-written" if n == full else
-                                "ext-skipped(small buffer)")
+        return "wire_ser:%s" % ("no-ext" if full == 20 else
+                                "both-ext-written" if n == full == 36 else
+                                "all-ext-written" if n == full else "ext-skipped(small buffer)")
     bs = uncsv(t[1])
     if out != "NONE":
         o = out.split()
@@ -417,36 +392,9 @@ def gen_around(rng, line, tier):
     return out
 
 
-def classify_known(kind, payload, kf):
-    if kind != "predicate" or payload.get("component") != "wire_both":
-        return None
-    if not is_known_class(payload.get("case", "")):
-        return None
-    if not any(f.get("id") == KNOWN_ID and "C11" in f.get("properties", [f.get("property")])
-               for f in kf.get("open", [])):
-        return None
-    return KNOWN_LINE[len("KNOWN-FINDING: property=C11 "):]
-
-
-def replay_known(kf):
-    """Replays the recorded case of every open C11 finding on the real code; the finding is
-    reported as long as the property predicate is still false on the implementation's output."""
-    import checklib as L
-    lines = []
-    for f in kf.get("open", []):
-        if "C11" not in f.get("properties", [f.get("property")]) or "case" not in f:
-            continue
-        o = L.run_lines(L.HARNESS, [f["case"]])[0]
-        p = "wire_pred " + f["case"] + " | " + o
-        if L.run_lines(L.MODEL, [p])[0] != "OK":
-            lines.append(KNOWN_LINE if f.get("id") == KNOWN_ID else
-                         "KNOWN-FINDING: property=C11 id=%s %s" % (f.get("id"), f.get("title", "")))
-    return lines
-
-
+# no "keep": a case line has no parameter prefix; a line that loses a token is answered BAD-CASE by
+# both sides (so the shrinker never accepts it) and the integers inside the tokens stay shrinkable
 COMPONENTS = [
     {"name": "wire", "gen": gen, "gen_around": gen_around, "nontrivial": nontrivial,
      "classify": classify, "pred": pred},
-    {"name": "wire_both", "gen": gen_known, "nontrivial": nontrivial, "classify": classify,
-     "pred": pred_known},
 ]
